@@ -203,6 +203,9 @@ BENIGN = (TraitError, AttributeError, KeyError, ValueError, TypeError, Delegatio
 
 def do(a, o, inner=False):
     k = a[0]
+    if k in ("otc_add", "any_add", "obs_add") and len(HANDLERS) >= 48:
+        return          # (a handler that registers handlers grows the population geometrically: that is the program's
+                        #  own run-away, not the library's)
     try:
         if k == "set":
             v = VALUES[a[2] % len(VALUES)]
